@@ -61,8 +61,8 @@ def _case(kind, chain, conform, provides, hooks, alt, **kw):
     return c
 
 
-def _lvl(adapt, other):
-    return {"adapt": adapt, "other": other}
+def _lvl(adapt, other, prov=None, plain=False):
+    return {"adapt": adapt, "other": other, "prov": prov, "plain": plain}
 
 
 def generate(run, tier):
@@ -132,6 +132,35 @@ def generate(run, tier):
                 for watch in (True, False):
                     cases.append(_case("attach", chain, conform, False, [["none"], ["value", 11]], 1,
                                        attach=attach, watch=watch))
+    # 3c. providedBy overrides and plain InterfaceClass subclasses (the flags of __init_subclass__)
+    provs = [None, ["true"], ["false"], ["raise", "other", 300], ["delegate"]]
+    pobjs = [
+        (["absent"], False, [["none"], ["value", 11]], 1),
+        (["absent"], True, [["value", 10]], None),
+        (["retnone"], True, [["raise", "other", 0]], 0),
+    ]
+    def prov_at(i, pv):
+        return ["raise", "other", 300 + i] if pv is not None and pv[0] == "raise" else pv
+    lvl_opts = []
+    for plain in (False, True):
+        for ad in (None, "value", "delegate"):
+            for pv in provs:
+                for other in ((False, True) if ad is None and pv is None else (False,)):
+                    lvl_opts.append((ad, pv, other, plain))
+    for n in (1, 2):
+        combos = list(itertools.product(lvl_opts, repeat=n))
+        if n == 2 and not thorough:
+            combos = rng.sample(combos, 250)
+        for combo in combos:
+            chain = [_lvl(None if a is None else adapt_at(i, a), o, prov_at(i, pv), pl)
+                     for i, (a, pv, o, pl) in enumerate(combo)]
+            for conform, provides, hs, alt in pobjs:
+                cases.append(_case("prov", chain, conform, provides, hs, alt))
+    for _ in range(1500 if thorough else 150):
+        chain = [_lvl(*[None if a is None else adapt_at(i, a), o, prov_at(i, pv), pl])
+                 for i, (a, pv, o, pl) in enumerate(rng.choice(lvl_opts) for _ in range(3))]
+        conform, provides, hs, alt = rng.choice(pobjs)
+        cases.append(_case("prov", chain, conform, provides, hs, alt, watch=rng.random() < 0.7))
     # 4. a real registry's adapter_hook
     for req in ("none", "IReq", "ISubReq"):
         for reg in ("none", "IReq", "Interface", "named", "None"):
@@ -151,7 +180,8 @@ def generate(run, tier):
             ad = None if a is None else adapt_at(i, a)
             if ad is not None and ad[0] == "raise":
                 ad = ["raise", rng.choice(eks), 200 + i]
-            chain.append(_lvl(ad, rng.random() < 0.5))
+            pv = rng.choice([None, None, None, ["true"], ["false"], ["delegate"], ["raise", rng.choice(eks), 300 + i]])
+            chain.append(_lvl(ad, rng.random() < 0.5, pv, rng.random() < 0.25))
         conform = list(rng.choice(CONFORMS))
         hs = []
         for i in range(rng.choice([0, 1, 2, 3, 5, 8])):
@@ -206,8 +236,16 @@ def _cbeh(a):
                           "delegate": lambda: "CADelegate"}[a[0]]()
 
 
+def _pbeh(a):
+    if a is None:
+        return "None"
+    return "(Some %s)" % {"true": lambda: "PBTrue", "false": lambda: "PBFalse",
+                          "raise": lambda: "(PBRaise %s)" % _exn(a[1], a[2]),
+                          "delegate": lambda: "PBDelegate"}[a[0]]()
+
+
 def _ev(e):
-    return {"g": lambda: "EvGetConform", "c": lambda: "EvCallConform", "p": lambda: "EvProvided",
+    return {"P": lambda: "(EvCustomProv %d)" % e[1], "g": lambda: "EvGetConform", "c": lambda: "EvCallConform", "p": lambda: "EvProvided",
             "h": lambda: "(EvHook %d)" % e[1], "a": lambda: "(EvCustom %d)" % e[1]}[e[0]]()
 
 
@@ -248,7 +286,8 @@ def coq_case(case, obs, mode):
         o = "(mkObj CAbsent %s %s %s)" % (C.cbool(case["provides"]), C.clist(hooks), alt)
         return "(%s, [], %s, (true, false, false, true, %s), (%s, %s), None)" % (
             uc, o, C.cbool(obs["ok"]), C.clist([_ev(e) for e in obs["log"]]), _outcome(obs["out"]))
-    chain = C.clist(["(mkLvl %s %s)" % (_cbeh(l["adapt"]), C.cbool(l["other"])) for l in case["chain"]])
+    chain = C.clist(["(mkLvl %s %s %s %s)" % (_cbeh(l["adapt"]), _pbeh(l.get("prov")), C.cbool(l["other"]),
+                                               C.cbool(l.get("plain", False))) for l in case["chain"]])
     o = "(mkObj %s %s %s %s)" % (_conform(case["conform"]), C.cbool(case["provides"]),
                                  C.clist([_hookt(h) for h in case["hooks"]]), alt)
     classobj = case.get("objkind") == "classobj"
@@ -270,7 +309,8 @@ def classify(case, obs):
         return ("registry", case["req"], case["reg"], case["factory_none"], case["provides"], case["alt"] is not None)
     return (case["conform"][0], tuple(case["conform"][1:2]), case["provides"], tuple(h[0] for h in case["hooks"]),
             case["alt"] is not None,
-            tuple((None if l["adapt"] is None else l["adapt"][0], l["other"]) for l in case["chain"]),
+            tuple((None if l["adapt"] is None else l["adapt"][0], l["other"],
+                   None if l.get("prov") is None else l["prov"][0], l.get("plain", False)) for l in case["chain"]),
             case.get("objkind"), case.get("attach", "method"), case.get("watch", True))
 
 
@@ -281,7 +321,8 @@ def kind(case, obs):
 def finding_key(case, obs, mode):
     if case["kind"] == "registry":
         return "registry/%s/%s/%s" % (mode, case["req"], case["reg"])
-    chain = "-".join(("A" if l["adapt"] else "") + ("O" if l["other"] else "") or "_" for l in case["chain"]) or "plain"
+    chain = "-".join(("A" if l["adapt"] else "") + ("P" if l.get("prov") else "") + ("O" if l["other"] else "")
+                     + ("s" if l.get("plain") else "") or "_" for l in case["chain"]) or "plain"
     return "call/%s/%s/%s/%s" % (mode, chain, case["conform"][0], case.get("attach", "method"))
 
 
